@@ -29,6 +29,16 @@ def switch_roots(P, f, adts=None, computed=False):
                 r = ("@", strip_sites(d).a[0])
             if r and (r, v[0]) not in out:
                 out.append((r, v[0]))
+    # a scheme value compared with `==` / `!=` (derived, field-less enum) is dispatched on just as well
+    for b, s_ in sorted(ev.sites.items()):
+        if s_.callee[0] in ("PartialEq::eq", "PartialEq::ne") and s_.callee[1] and str(s_.callee[1][0]).split("<")[0] in adts and len(s_.args) == 2:
+            adt = str(s_.callee[1][0]).split("<")[0]
+            if any(v.get("fields") for v in P.adts[adt]["variants"]):
+                continue
+            for a in s_.args:
+                r = place_root(strip_sites(a))
+                if r and (r, adt) not in out:
+                    out.append((r, adt))
     for g in with_mappers(P, [f]):
         if g is f:
             continue
